@@ -1,7 +1,7 @@
 /-
   C07 — reaction files of all formats are decoded faithfully.
-  Native round trip: `C18.native_roundtrip`.  KROME's format-directed reader is modelled in the harness
-  correspondence only (its directive state is exercised there); its round-trip is *not* proved here.
+  Native round trip: `C18.native_roundtrip`.  UMIST / Leeds / UCLCHEM round trips: `C07b`.  KROME's
+  format-directed reader (directive state machine, standard-layout round trip): `NaunetModel.Krome`, `C07c`.
 -/
 import NaunetProps.C18
 
